@@ -15,12 +15,14 @@ pub struct Mix {
     pub think_in_txn: bool,
     pub notices: bool,
     pub portal_suspend: bool,
+    /// CopyDone / CopyFail outside COPY (C01 only: the other families' oracles count units)
+    pub stray_copy: bool,
     pub max_rows: u64,
 }
 
 impl Mix {
     pub fn all() -> Mix {
-        Mix { explicit_txn: true, failed_txn: true, extended: true, named: true, pipelined: true, copy: true, multi_stmt: true, big_replies: true, think_in_txn: true, notices: true, portal_suspend: true, max_rows: 6 }
+        Mix { explicit_txn: true, failed_txn: true, extended: true, named: true, pipelined: true, copy: true, multi_stmt: true, big_replies: true, think_in_txn: true, notices: true, portal_suspend: true, stray_copy: false, max_rows: 6 }
     }
     pub fn swarm(rng: &mut Rng) -> Mix {
         let mut m = Mix::all();
@@ -89,7 +91,7 @@ pub fn add_txn(p: &mut Prog, rng: &mut Rng, mix: &Mix, session_mode: bool) {
     if mix.extended { kinds.push("ext"); kinds.push("ext_in_txn"); }
     if mix.named { kinds.push("ext_named"); }
     if mix.pipelined { kinds.push("pipe_q"); kinds.push("pipe_ext"); }
-    if mix.copy { kinds.push("copy_in"); kinds.push("copy_out"); kinds.push("copy_fail"); }
+    if mix.copy { kinds.push("copy_in"); kinds.push("copy_out"); kinds.push("copy_fail"); if mix.stray_copy { kinds.push("stray_copy"); } }
     if mix.multi_stmt { kinds.push("multi"); }
     let _ = session_mode;
     let kind = *rng.pick(&kinds);
@@ -194,6 +196,14 @@ pub fn add_txn(p: &mut Prog, rng: &mut Rng, mix: &Mix, session_mode: bool) {
             let chunks: Vec<usize> = (0..n).map(|_| *rng.pick(&[1usize, 10, 100, 4000, 8190, 8191, 8192, 8200, 20000])).collect();
             let txn = p.t;
             p.steps.push(Step::CopyIn { sql: format!("COPY t FROM STDIN /* {} */", t), chunks, fail: kind == "copy_fail", drop_after: None, txn });
+        }
+        "stray_copy" => {
+            // CopyDone / CopyFail while no COPY is running: the server ignores it and sends
+            // nothing; the client goes on with its session
+            let raw = if rng.chance(0.5) { "6300000004".to_string() } else { "660000000873696d00".to_string() };
+            p.steps.push(Step::Raw { hex: raw, read_ms: rng.range(2, 40) });
+            let sql = p.select(rows, pad, "");
+            p.simple(sql);
         }
         "copy_out" => {
             let t = p.tag();
@@ -300,7 +310,8 @@ fn add_final_probes(spec: &mut Spec, cfg: &Cfg, rng: &mut Rng) {
 
 pub fn c01(rng: &mut Rng, thorough: bool, idx: u64) -> Spec {
     let faults = idx % 3 == 2;
-    let mix = Mix::swarm(rng);
+    let mut mix = Mix::swarm(rng);
+    mix.stray_copy = rng.chance(0.5);
     let net = if rng.chance(0.2) { net_calm() } else { net_swarm(rng) };
     let o = BaseOpts { clients: (2, if thorough { 8 } else { 5 }), txns: (1, if thorough { 8 } else { 4 }), pool_size: (1, 3), replicas: (0, 2), session_mode_p: 0.3, parser_p: 0.3 };
     let (mut spec, cfg) = base_world(rng, &o, &mix, net);
@@ -313,7 +324,24 @@ pub fn c01(rng: &mut Rng, thorough: bool, idx: u64) -> Spec {
             spec.actions.push(ActionSpec { at: When::AtMs { ms: rng.range(80, 200) }, act: Action::HostBehaviour { host, b: "normal".into() } });
         }
     }
-    let _ = cfg;
+    let mut cfg = cfg;
+    // (not together with stray copy messages: a checkout that fails for one of those is answered
+    // with an error and ReadyForQuery, after which a client that counts ReadyForQuery attributes
+    // every later reply to the wrong step)
+    if idx % 3 == 1 && !mix.stray_copy && rng.chance(0.5) {
+        // the server answers more slowly than the checkout health check waits, for a while:
+        // its late replies must not reach anybody
+        let hct = rng.range(15, 60);
+        cfg.set("healthcheck_delay", 0);
+        cfg.set("healthcheck_timeout", hct);
+        cfg.set("ban_time", 1);
+        spec.config_toml = cfg.render();
+        let host = rng.pick(&spec.hosts).addr.clone();
+        let from = rng.range(3, 60);
+        spec.actions.push(ActionSpec { at: When::AtMs { ms: from }, act: Action::HostBehaviour { host: host.clone(), b: format!("slow:{}", hct + rng.range(10, 120)) } });
+        spec.actions.push(ActionSpec { at: When::AtMs { ms: from + rng.range(hct, 6 * hct) }, act: Action::HostBehaviour { host, b: "normal".into() } });
+        spec.family = "isolation+slow_health_check".into();
+    }
     spec.oracles = vec!["c01_isolation".into(), "liveness".into()];
     spec
 }
